@@ -99,14 +99,20 @@ def stream_wellpop(ctx, ntables):
                             {"kinds": kinds, "rows": len(df), "first_rows": df.head(4).astype(str).values.tolist(), "range_lt": bp.range_low_threshold, "sing_lt": bp.singularity_low_threshold,
                              "lt": ap.low_count_params.low_threshold}, "exact")
     # regression corpus: F4 (exponent notation) and F11 (timestamp truncation)
+    # and tables of more than a thousand rows in which the values with the most decimal places come last (sorted data, a coarse block first)
     corpus = [pd.DataFrame({"a": [1.5e-9, 2.5e-9] * 20}),
-              pd.DataFrame({"t": [pd.Timestamp("2024-02-29 12:00:01"), pd.Timestamp("1999-12-31 23:59:59")] * 20})]
+              pd.DataFrame({"t": [pd.Timestamp("2024-02-29 12:00:01"), pd.Timestamp("1999-12-31 23:59:59")] * 20}),
+              pd.DataFrame({"a": [2.0] * 700 + [3.5] * 400 + [3.125] * 40 + [0.25] * 40 + [7.0625] * 30}),
+              pd.DataFrame({"a": [float("nan")] * 1010 + [1.234567891e-9] * 30 + [2.5e-9] * 30, "k": [1] * 1010 + [2] * 60})]
     from syndiffix.common import AnonymizationParams, SuppressionParams
     ap0 = AnonymizationParams(salt=b"x" * 8, low_count_params=SuppressionParams(layer_sd=0.0), layer_noise_sd=0.0)
     for df in corpus:
         out = Synthesizer(df, anonymization_params=ap0, clustering=SingleClustering()).sample()
+        S.count(("corpus", repr(df.iloc[[0, -1]].values.tolist()), len(df)), True, {"corpus": True, "rows": len(df)}, tag="corpus")
         if Counter(map(canon, df.iloc[:, 0])) != Counter(map(canon, out.iloc[:, 0])):
-            ctx.oracle_fail(f"corpus table {df.columns[0]}={df.iloc[0,0]!r},... not reproduced exactly", {"corpus": str(df.iloc[0, 0])}, "exact")
+            miss = list((Counter(map(canon, df.iloc[:, 0])) - Counter(map(canon, out.iloc[:, 0]))).items())[:3]
+            ctx.oracle_fail(f"corpus table of {len(df)} rows, {df.columns[0]}={df.iloc[0,0]!r},...,{df.iloc[-1,0]!r} not reproduced exactly (missing {miss})",
+                            {"corpus": str(df.iloc[0, 0]), "rows": len(df), "last": str(df.iloc[-1, 0])}, "exact")
 
 
 def run(ctx, built):
